@@ -1,8 +1,14 @@
 import EpgVerif.Props.C03
 import EpgVerif.Tie.DiffSites
+import EpgVerif.Props.C03Run
 open EpgVerif.Props.C03
 #print axioms order2_accumulates_every_term_once
 #print axioms hessian_symm
 #print axioms termsB_single
 #print axioms EpgVerif.Diff.val_mirror_swapped
 #print axioms EpgVerif.Tie.DiffSites.sites_as_modelled
+#print axioms EpgVerif.Ex.defined_d
+#print axioms mixed_step
+#print axioms twoVar_value
+#print axioms T_mixed_symm
+#print axioms T_mixed_partial_exact
